@@ -353,6 +353,74 @@ func runC16(c *rt.Ctx) {
 		c.Require(f.name+"-prefix-with-emittable-byte", 100)
 	}
 
+	// the arrays the caller keeps: a buffer too small for the result is outgrown (the formatter returns a new array), but
+	// it is still the caller's - log lines, records, pooled buffers live on. Buffers of capacity 64..4096 with little
+	// room are formatted into, then hundreds of later calls of every formatter run, then the old arrays and the old
+	// results are compared with what they held.
+	c.Serial("callers-arrays-after-later-calls", func(w *rt.W) {
+		type kept struct {
+			f        string
+			backing  []byte
+			plen     int
+			out      []byte
+			outCopy  string
+			describe string
+		}
+		var ks []kept
+		pat := func(n, salt int) []byte {
+			b := make([]byte, n)
+			for i := range b {
+				b[i] = "0123456789abcdefIVXLCDMivxlcdm-.+ vKiB:urn"[(i*7+salt)%42]
+			}
+			return b
+		}
+		for fi := range fs[:5] {
+			f := &fs[fi]
+			for _, capacity := range []int{64, 96, 128, 256, 512, 1024, 2048, 4096} {
+				for _, spare := range []int{0, 1, 4, 9} {
+					for vi := 0; vi < f.nValues; vi += 1 + f.nValues/4 {
+						flag := (vi + spare) % f.nFlags
+						plen := capacity - spare
+						backing := make([]byte, capacity)
+						copy(backing, pat(plen, capacity+spare+vi))
+						out, err := f.call(backing[:plen:capacity], vi, flag)
+						w.Eval(1)
+						if err != nil {
+							continue
+						}
+						ks = append(ks, kept{f.name, backing, plen, out, string(out), f.describe(vi, flag)})
+					}
+				}
+			}
+		}
+		for round := 0; round < 3; round++ {
+			for fi := range fs[:5] {
+				f := &fs[fi]
+				for vi := 0; vi < f.nValues; vi++ {
+					_, _ = f.call(nil, vi, vi%f.nFlags)
+					_, _ = f.call(make([]byte, 3, 8), vi, (vi+1)%f.nFlags)
+					_, _ = f.call(append(make([]byte, 0, 70), "log: "...), vi, 0)
+				}
+			}
+		}
+		for _, k := range ks {
+			w.Eval(2)
+			if string(k.out) != k.outCopy {
+				w.Fail("kept-result-changed-by-later-calls-"+k.f, "keptarrays", rt.Args("formatter", k.f, "value", k.describe, "capacity", cap(k.backing), "prefix_len", k.plen), string(k.out), k.outCopy, "a result kept by the caller changed while later formatting calls ran")
+				break
+			}
+		}
+		for _, k := range ks {
+			// the prefix was generated from (capacity, spare, vi); recompute it from the result, whose head is the prefix
+			if string(k.backing[:k.plen]) != k.outCopy[:k.plen] {
+				w.Fail("callers-outgrown-array-written-by-later-calls-"+k.f, "keptarrays", rt.Args("formatter", k.f, "value", k.describe, "capacity", cap(k.backing), "prefix_len", k.plen), string(k.backing[:k.plen]), k.outCopy[:k.plen], "the caller's own array, outgrown by the result, was written to by later formatting calls")
+				break
+			}
+			w.ClassN("callers-array-rechecked-after-later-calls", 1)
+		}
+	})
+	c.Require("callers-array-rechecked-after-later-calls", 300)
+
 	// every history of three formatting calls over a few values and flags per formatter, on one goroutine (a formatter
 	// that remembers its last value, flags or result shows only when nothing else runs in between)
 	for fi := range fs[:5] {
